@@ -302,6 +302,8 @@ void add_type(Node *node) {
       error_tok(node->cas_addr->tok, "pointer expected");
     if (node->cas_old->ty->kind != TY_PTR)
       error_tok(node->cas_old->tok, "pointer expected");
+    if (node->cas_addr->ty->base->size > 8)
+      error_tok(node->cas_addr->tok, "atomic operations on objects larger than 8 bytes are not supported");
     return;
   case ND_EXCH:
     if (node->lhs->ty->kind != TY_PTR)
